@@ -918,3 +918,142 @@ Proof.
     + rewrite <- Pre. exact R.
     + apply NT. apply in_or_app. right. left. reflexivity.
 Qed.
+
+(* ------------------------------------------------------------------ *)
+(* Config.from_dict: the content is the base content updated (dict.update, top
+   level) by the content of the user dictionary *)
+Definition tree_ent (f : nat) (st : cstore) (kv : Z * cval) : res (Z * ctree) :=
+  match tree_of f st (snd kv) with Ok t => Ok (fst kv, t) | Err e => Err e end.
+
+Lemma mapM_od_set : forall f st A A' k v t,
+  mapM (tree_ent f st) A = Ok A' -> tree_of f st v = Ok t ->
+  mapM (tree_ent f st) (od_set A k v) = Ok (od_set A' k t).
+Proof.
+  intros f st. induction A as [|[k0 v0] A0 IH]; intros A' k v t E T.
+  - cbn in E. inversion E; subst. cbn. unfold tree_ent at 1. cbn [snd fst]. rewrite T. reflexivity.
+  - cbn [mapM bind] in E. destruct (tree_ent f st (k0, v0)) as [[k1 t0]|e] eqn:E0; [|discriminate].
+    destruct (mapM (tree_ent f st) A0) as [A0'|e] eqn:E1; [|discriminate]. inversion E; subst A'.
+    assert (k1 = k0). { unfold tree_ent in E0. cbn in E0. destruct (tree_of f st v0); inversion E0; reflexivity. }
+    subst k1. cbn [od_set]. destruct (k0 =? k) eqn:Ek.
+    + cbn [mapM bind]. unfold tree_ent at 1. cbn [snd fst]. rewrite T, E1. reflexivity.
+    + cbn [mapM bind]. rewrite E0. rewrite (IH _ _ _ _ eq_refl T). reflexivity.
+Qed.
+
+Lemma mapM_od_update : forall f st B A A' B',
+  mapM (tree_ent f st) A = Ok A' -> mapM (tree_ent f st) B = Ok B' ->
+  mapM (tree_ent f st) (od_update A B) = Ok (od_update A' B').
+Proof.
+  intros f st. induction B as [|[k v] B0 IH]; intros A A' B' EA EB.
+  - cbn in EB. inversion EB; subst. exact EA.
+  - cbn [mapM bind] in EB. destruct (tree_ent f st (k, v)) as [[k1 t]|e] eqn:E0; [|discriminate].
+    destruct (mapM (tree_ent f st) B0) as [B0'|e] eqn:E1; [|discriminate]. inversion EB; subst B'.
+    unfold tree_ent in E0. cbn [snd fst] in E0. destruct (tree_of f st v) as [t'|] eqn:Tv; inversion E0; subst k1 t'.
+    rewrite !od_update_cons. apply IH; [|reflexivity]. apply mapM_od_set; assumption.
+Qed.
+
+Lemma tree_of_S : forall f st l nd,
+  nth_error st l = Some nd ->
+  tree_of (S f) st (VRef l) = match mapM (tree_ent f st) nd with Ok es => Ok (TNode es) | Err e => Err e end.
+Proof. intros f st l nd E. cbn [tree_of]. rewrite E. reflexivity. Qed.
+
+Lemma tree_ent_frame : forall f st st' col c nd,
+  sinv st col ->
+  (forall l, (l < length st)%nat -> col l = c -> nth_error st' l = nth_error st l) ->
+  refs_ok (fun r => (r < length st)%nat /\ col r = c) nd ->
+  mapM (tree_ent f st') nd = mapM (tree_ent f st) nd.
+Proof.
+  intros f st st' col c nd S F R. apply mapM_ext_in. intros [k v] Hin. unfold tree_ent. cbn [fst snd].
+  destruct v as [a|r]; [destruct f; reflexivity|].
+  destruct (R _ _ Hin) as [Hr Cr]. rewrite (tree_frame st st' col c S F f r Hr Cr). reflexivity.
+Qed.
+
+Lemma cfg_from_dict_tree : forall fuel st b u st' root,
+  sinv st (fun _ => 0%nat) -> knodup st -> (b < length st)%nat -> (u < length st)%nat ->
+  cfg_from_dict fuel st b u = Ok (st', root) ->
+  forall f eb eu,
+    tree_of (S f) st (VRef b) = Ok (TNode eb) -> tree_of (S f) st (VRef u) = Ok (TNode eu) ->
+    tree_of (S f) st' (VRef root) = Ok (TNode (od_update eb eu)).
+Proof.
+  intros fuel st b u st' root S K Hb Hu E f eb eu Tb Tu.
+  unfold cfg_from_dict in E. destruct (cfg_new fuel st b) as [[st1 r1]|e] eqn:En; [|discriminate].
+  pose proof (cfg_new_tree fuel st b st1 r1 S K Hb En (Datatypes.S f)) as T1. rewrite Tb in T1.
+  destruct (cfg_new_ok fuel st (fun _ => 0%nat) 0%nat b st1 r1 S (fun _ _ => eq_refl) En) as (S1 & [G1 G2] & R1).
+  assert (K1 : knodup st1) by (eapply cfg_new_kn; eauto).
+  destruct (dcopy fuel st1 [] u) as [[[st2 m2] u']|e] eqn:Ed; [|discriminate].
+  destruct (nth_error st2 u') as [und|] eqn:Eu; [|discriminate].
+  destruct (nth_error st2 r1) as [rnd|] eqn:Er; [|discriminate].
+  inversion E; subst st' root. clear E.
+  (* the user content, read in st2 *)
+  assert (W1 : forall k nd, nth_error st1 k = Some nd -> refs_ok (fun r => (r < length st1)%nat) nd).
+  { intros k nd X kk r I. destruct (S1 _ _ X _ _ I); assumption. }
+  assert (Hu1 : (u < length st1)%nat) by lia.
+  pose proof (dcopy_content st1 fuel u st2 m2 u' W1 K1 Hu1 Ed (Datatypes.S f)) as T2.
+  assert (Tu1 : tree_of (Datatypes.S f) st1 (VRef u) = Ok (TNode eu)).
+  { rewrite (tree_frame st st1 (fun _ => 0%nat) 0%nat S); auto. }
+  rewrite Tu1 in T2.
+  (* colouring: 0 below length st1, 1 above *)
+  set (col := recol (fun _ => 0%nat) (length st1) 1%nat).
+  assert (S1c : sinv st1 col) by (eapply sinv_ext; [|exact S1]; intros; apply recol_old; assumption).
+  destruct (dcopy_sinv fuel st1 col 1%nat u st2 m2 u' S1c ltac:(intros; apply recol_new; assumption) Ed)
+    as (S2 & [H1 H2] & R2).
+  assert (Hr1 : (r1 < length st1)%nat) by lia.
+  assert (Er1 : nth_error st1 r1 = Some rnd) by (rewrite <- (H2 _ Hr1); exact Er).
+  set (newnd := od_update rnd und).
+  assert (F0 : forall l, (l < length st2)%nat -> l <> r1 -> nth_error (set_nth st2 r1 newnd) l = nth_error st2 l).
+  { intros l Hl NE. rewrite nth_error_set_nth. destruct (Nat.eqb_spec l r1); [contradiction | reflexivity]. }
+  (* children of the root node as read in st1 are the same in the final store *)
+  rewrite (tree_of_S f st1 r1 rnd Er1) in T1.
+  destruct (mapM (tree_ent f st1) rnd) as [eb'|] eqn:Mb; inversion T1; subst eb'.
+  rewrite (tree_of_S f st2 u' und Eu) in T2.
+  destruct (mapM (tree_ent f st2) und) as [eu'|] eqn:Mu; inversion T2; subst eu'.
+  (* no node other than the root refers to the root: children of rnd are below r1 *)
+  assert (Rr : refs_ok (fun r => (r < r1)%nat) rnd).
+  { unfold cfg_new in En. destruct (dcopy fuel st [] b) as [[[sta ma] c]|] eqn:Eda; [|discriminate].
+    destruct (nth_error sta c) as [ndc|] eqn:Ec; [|discriminate]. inversion En; subst st1 r1.
+    destruct (dcopy_sinv fuel st (fun _ => 0%nat) 0%nat b sta ma c S (fun _ _ => eq_refl) Eda) as (Sa & _ & _).
+    rewrite nth_error_app2, Nat.sub_diag in Er1 by lia. cbn in Er1. inversion Er1; subst rnd.
+    intros k r I. apply od_of_in in I. destruct (Sa _ _ Ec _ _ I); assumption. }
+  assert (Mb' : mapM (tree_ent f (set_nth st2 r1 newnd)) rnd = Ok eb).
+  { rewrite <- Mb. unfold cfg_new in En. destruct (dcopy fuel st [] b) as [[[sta ma] c]|] eqn:Eda; [|discriminate].
+    destruct (nth_error sta c) as [ndc|] eqn:Ec; [|discriminate]. inversion En; subst st1 r1.
+    destruct (dcopy_sinv fuel st (fun _ => 0%nat) 0%nat b sta ma c S (fun _ _ => eq_refl) Eda) as (Sa & _ & _).
+    assert (Ra : refs_ok (fun r => (r < length sta)%nat /\ (fun _ : nat => 0%nat) r = 0%nat) rnd)
+      by (intros k r I; split; [eapply Rr; eauto | reflexivity]).
+    rewrite (tree_ent_frame f sta (set_nth st2 (length sta) newnd) (fun _ => 0%nat) 0%nat rnd Sa); auto.
+    - symmetry. apply (tree_ent_frame f sta (sta ++ [od_of ndc]) (fun _ => 0%nat) 0%nat rnd Sa); auto.
+      intros l Hl _. apply nth_error_app1; exact Hl.
+    - intros l Hl _. rewrite F0; [|rewrite app_length in H1; cbn in H1; lia | lia].
+      rewrite H2 by (rewrite app_length; cbn; lia). apply nth_error_app1; exact Hl. }
+  assert (Mu' : mapM (tree_ent f (set_nth st2 r1 newnd)) und = Ok eu).
+  { rewrite <- Mu. apply (tree_ent_frame f st2 (set_nth st2 r1 newnd) col 1%nat und S2).
+    - intros l Hl Cl. apply F0; [exact Hl|]. intros X; subst l. unfold col in Cl. rewrite recol_old in Cl by lia. discriminate.
+    - intros k r I. destruct (S2 _ _ Eu _ _ I) as [A B]. split; [exact A|]. rewrite B. unfold col. apply recol_new. lia. }
+  assert (Enew : nth_error (set_nth st2 r1 newnd) r1 = Some newnd).
+  { rewrite nth_error_set_nth, Nat.eqb_refl, Er. reflexivity. }
+  rewrite (tree_of_S f _ r1 newnd Enew).
+  pose proof (mapM_od_update f _ und rnd eb eu Mb' Mu') as Q. fold newnd in Q. rewrite Q. reflexivity.
+Qed.
+
+Theorem from_dict_content : forall fuel ops u w',
+  let w := wrun fuel w0 ops in
+  wstep fuel w (WFromDict u) = (w', Ok tt) ->
+  exists base ur root,
+    nth_error (wusers w) 0 = Some base /\ nth_error (wusers w) u = Some ur
+    /\ winsts w' = winsts w ++ [root] /\ wusers w' = wusers w
+    /\ forall f eb eu,
+         tree_of (S f) (wst w) (VRef base) = Ok (TNode eb) ->
+         tree_of (S f) (wst w) (VRef ur) = Ok (TNode eu) ->
+         tree_of (S f) (wst w') (VRef root) = Ok (TNode (od_update eb eu)).
+Proof.
+  intros fuel ops u w' w E.
+  destruct (wrun_inv fuel ops w0 _ winv_w0) as (col & Sv & U & I). fold w in Sv, U, I.
+  assert (K : knodup (wst w)) by (apply wrun_kn; intros l nd X; destruct l; discriminate).
+  unfold wstep in E. destruct (nth_error (wusers w) 0) as [base|] eqn:Eb; [|inversion E].
+  destruct (nth_error (wusers w) u) as [ur|] eqn:Eu; [|inversion E].
+  destruct (cfg_from_dict fuel (wst w) base ur) as [[st' root]|e] eqn:En; [|inversion E].
+  inversion E; subst w'. clear E. exists base, ur, root. cbn [winsts wusers wst].
+  repeat (split; [reflexivity|]).
+  destruct (U _ _ Eb) as [Hb _]. destruct (U _ _ Eu) as [Hu _].
+  apply (cfg_from_dict_tree fuel (wst w) base ur st' root); auto.
+  intros l nd X k r Hin. destruct (Sv _ _ X _ _ Hin). split; [assumption | reflexivity].
+Qed.
